@@ -1,6 +1,6 @@
 """C01 configuration for ./check (keys: see checks/propcfg.py)."""
 CFG = {
-    "modules": ["VaxisModel.Props.C01", "VaxisModel.Props.C01Display", "VaxisModel.Props.C01Clip", "VaxisModel.Props.C01Sixel", "VaxisModel.Props.C01Cluster", "VaxisModel.Props.C01App", "VaxisModel.Props.C01AppCluster", "VaxisModel.Props.C01Ops", "VaxisModel.Witness.C11ShowCursor", "VaxisModel.Props.C01Facts", "VaxisModel.Props.C01Seq"],
+    "modules": ["VaxisModel.Props.C01", "VaxisModel.Props.C01Display", "VaxisModel.Props.C01Clip", "VaxisModel.Props.C01Sixel", "VaxisModel.Props.C01SixelRest", "VaxisModel.Props.C01Cluster", "VaxisModel.Props.C01App", "VaxisModel.Props.C01AppCluster", "VaxisModel.Props.C01Ops", "VaxisModel.Witness.C11ShowCursor", "VaxisModel.Props.C01Facts", "VaxisModel.Props.C01Seq"],
     "extractors": ["C07", "C04", "C18", "C11", "C01"],
     "drivers": ["C01", "C01Ops"],
     "stateful": True,
@@ -24,7 +24,8 @@ CFG = {
                   "screen the C11 window model computes, nothing terminal-specific relied on, terminal at rest), app_first_frame_after_resize (buffers reallocated, "
                   "refresh set, then whatever well-formed grid the terminal shows), app_screen_is_last_write (that screen = the writes of Spec.Window that hit each cell, "
                   "last wins, never-written blank), app_cursor / app_cursor_always (cursor as last requested after every frame, also after a size change to ANY size — an empty screen included — whatever the terminal did with the cursor) / showCursor_position, frame_displays / history_displays_clip (no 'glyph fits' hypothesis since the F02 "
-                  "repair), frame_displays_current, sixel_cell_not_drawn, dropped_image_rewritten, flush_epilogue, cursor_as_requested; on a terminal that clusters graphemes (mode 2027): "
+                  "repair), frame_displays_current, sixel_cell_not_drawn, dropped_image_rewritten, flush_epilogue, cursor_as_requested, and for the renderer as it is now with image cells allowed: flush_epilogue_current / flush_resets_pen_current / "
+                  "cursor_as_requested_current (pen reset, hyperlink closed, sync balanced, cursor as requested after EVERY frame of renderFrameS — only the grid clause of screens with image cells is open); on a terminal that clusters graphemes (mode 2027): "
                   "frame_displays_clustering_tight under the explicit hypothesis NoJoinNeighbours (no two horizontally consecutive shown cells of a row join; frame_displays_clustering for the coarser NoJoinRows), render_no_adjacent_join_tight (every frame of the current renderer, "
                   "image cells included), clustering_terminal_agrees, and no_join_needed (decide: the hypothesis is necessary, finding F112d); stream_*_is_sysStep / oracle_screen_is_model_screen "
                   "(the op-level stream runs sysStep, and its oracle's reference screen is the model's buffer). Structural tie: the statement "
